@@ -413,6 +413,28 @@ PROPS = {
         "rule": "cases = transitions of the bounded TLC instances replayed against the contracts; distinct = distinct (role state, entry point, authoriser) tuples",
         "assumptions": ["soroban-env-host test mode implements require_auth as on chain; an authorisation entry is installed only for the named principal and only for the exact call tree"],
     },
+    "C07": {
+        "title": "No spending, burning, sending or consuming for an address without its auth",
+        "policy": {"guards": ["named_auth", "gas_auth"], "fields": [], "events": [], "rets": []},
+        "jobs": [
+            {"kind": "graph", "spec": "MC_C07_token", "module": "Token", "evkinds": TOKEN_EVENTS,
+             "need": ["%s/%s" % (n, o) for n in ["Approve", "Transfer", "TransferFrom", "Burn", "BurnFrom", "MintFrom"] for o in ["ok", "named_auth"]]},
+            {"kind": "graph", "spec": "MC_C07_gas", "module": "GasService", "evkinds": ["gas_paid", "gas_added"],
+             "need": ["PayGas/ok", "PayGas/named_auth", "AddGas/ok", "AddGas/named_auth"]},
+            {"kind": "graph", "spec": "MC_C07_gateway", "module": "Gateway", "evkinds": GW_EVENTS,
+             "need": ["ValidateMessage/ok", "ValidateMessage/named_auth", "CallContract/ok", "CallContract/named_auth"]},
+            {"kind": "graph", "spec": "MC_C07_its", "module": "ITS", "evkinds": ITS_EVENTS + ["app_called"],
+             "need": ["DeployInterchainToken/ok", "DeployInterchainToken/named_auth", "DeployRemoteInterchainToken/ok", "DeployRemoteInterchainToken/named_auth",
+                      "DeployRemoteCanonical/ok", "DeployRemoteCanonical/gas_auth", "InterchainTransfer/ok", "InterchainTransfer/named_auth",
+                      "ExampleSend/ok", "ExampleSend/named_auth"]},
+            {"kind": "graph", "spec": "MC_C17", "module": "Operators", "suffix": "_c07",
+             "evkinds": ["probe_call", "operator_added", "operator_removed", "ownership_transferred"],
+             "need": ["Execute/ok", "Execute/named_auth"]},
+        ],
+        "level_text": "TLC proves 'a successful spending / burning / gas-paying / sending / consuming / deploying / executing call carries the authorisation of the address it names (or that address is the calling contract); refused calls change nothing' on every transition of five finite instances (token, gas service, gateway, token service + example app, operators): every such entry point x authoriser in {the named address, the counterparty or recipient, the contract owner, a stranger, nobody}, in states with and without allowances / registrations. All transitions are executed against the real contracts with exactly the stated principal's authorisation entries (full call trees) installed.",
+        "rule": "cases = transitions of the bounded TLC instances replayed against the contracts; distinct = distinct (state, entry point, authoriser) tuples",
+        "assumptions": ["soroban-env-host test mode implements require_auth as on chain; an authorisation entry is installed only for the named principal"],
+    },
 }
 
 NOT_YET = {}
